@@ -568,8 +568,9 @@ def fam_closures():
     add("nohoist-call-before-def", [Try([P(Call("late", I(1)))], "e", [P(60)]), FnStmt("late", ["a"], [Ret(Id("a"))]), P(Call("late", I(2))), Ret(I(0))])
     add("nohoist-inner-after-assign", [Let("x", I(10)), FnStmt("k", [], [Let("x", I(20)), FnStmt("x", [], [Ret(I(0))]), Ret(I(1))]), E(Call("k")), P(Id("x")), Ret(I(0))])
     add("nohoist-read-outer-before-inner-def", [FnStmt("h", [], [Ret(I(1))]), FnStmt("k", [], [P(Call("h")), FnStmt("h", [], [Ret(I(2))]), P(Call("h")), Ret(I(0))]), E(Call("k")), P(Call("h")), Ret(I(0))])
-    add("nohoist-in-branch", [If(B(True), [P(Nilco(Id("bf"), S("undef"))), FnStmt("bf", [], [Ret(I(1))]), P(Call("bf"))]), P(Nilco(Id("bf"), S("undef"))), Ret(I(0))])
-    add("nohoist-in-loop", [ForIn("i", L(I(1), I(2)), [P(Nilco(Id("lf"), S("undef"))), FnStmt("lf", [], [Ret(I(1))])]), Ret(I(0))])
+    # (function values are never printed: they print as addresses)
+    add("nohoist-in-branch", [If(B(True), [Try([P(Call("bf"))], "e", [P(60)]), FnStmt("bf", [], [Ret(I(1))]), P(Call("bf"))]), Try([P(Call("bf"))], "e", [P(61)]), Ret(I(0))])
+    add("nohoist-in-loop", [ForIn("i", L(I(1), I(2)), [Try([P(Call("lf"))], "e", [P(60)]), FnStmt("lf", [], [Ret(Id("i"))])]), Ret(I(0))])
     return out
 
 
